@@ -1,4 +1,10 @@
 import OdakProofs.Lemmas.Colour
+import OdakProofs.Lemmas.GenColourHsv
+import OdakProofs.Lemmas.GenColourLab
+import OdakProofs.Lemmas.GenColourLab2
+import OdakProofs.Lemmas.GenColourLab3
+import OdakProofs.Lemmas.GenColourLms
+import OdakProofs.Lemmas.LabRoundTrip
 
 /-! # C15 – colour-space conversions invert each other and match the published standards
   The per-pixel conversion functions are regenerated from `/repo`
@@ -287,5 +293,233 @@ example : ∃ M Minv : Mat3 ℝ, Minv * M = Mat3.one ∧ M ≠ Mat3.one := by
 example : hsvToRgb (rgbToHsv 0 (⟨1 / 4, 1, 1 / 2⟩ : Vec3 ℝ)) = ⟨1 / 4, 1, 1 / 2⟩ := by
   apply C15_hsv_roundtrip_exact
   simp only [max3, maxN_real]; norm_num
+
+/-! ## the tensor-level functions regenerated from the source (`Odak.GenT.*`, `Generated/ColourTensors.lean`)
+
+  Every statement of `color_conversion.py` - including every `unsqueeze` / `permute` / `reshape` / `matmul` / `gather` - is
+  translated at the tensor level; the theorems below say what the functions do to IMAGES: for every accepted layout the result
+  at batch index `b`, row `i`, column `j` is the per-pixel function of the input pixel at the same `b, i, j`, where the per-pixel
+  function is the one the theorems above are about. -/
+open Tensor
+
+/-- `[k x 3 x m x n]` batches: all eight NCHW conversions and the opponent stage act pixel by pixel, image by image -/
+theorem C15_gen_layout_batch (img : Tensor ℝ) (k m n : Nat) (h : img.shape = [k, 3, m, n]) (b i j : Nat)
+    (hb : b < k) (hi : i < m) (hj : j < n) (eps th : ℝ) :
+    pixel4 (GenT.rgb_2_ycrcb img) b i j = rgb2ycrcb (pixel4 img b i j) ∧
+    pixel4 (GenT.ycrcb_2_rgb img) b i j = ycrcb2rgb (pixel4 img b i j) ∧
+    pixel4 (GenT.rgb_to_linear_rgb img th) b i j = Vec3.mapR srgbToLinear (pixel4 img b i j) ∧
+    pixel4 (GenT.linear_rgb_to_rgb img GenT.linear_rgb_to_rgb_threshold) b i j = Vec3.mapR linearToSrgb (pixel4 img b i j) ∧
+    pixel4 (GenT.linear_rgb_to_xyz img) b i j = linearRgbToXyz (pixel4 img b i j) ∧
+    pixel4 (GenT.xyz_to_linear_rgb img) b i j = xyzToLinearRgb (pixel4 img b i j) ∧
+    pixel4 (GenT.rgb_to_hsv img eps) b i j = rgbToHsv eps (pixel4 img b i j) ∧
+    pixel4 (GenT.hsv_to_rgb img) b i j = hsvToRgb (pixel4 img b i j) ∧
+    pixel4 (GenT.second_to_third_stage img) b i j = opponentStage (pixel4 img b i j) :=
+  ⟨(rgb_2_ycrcb_layout4 img k m n h b i j hb hi hj).2, (ycrcb_2_rgb_layout4 img k m n h b i j hb hi hj).2,
+   (rgb_to_linear_rgb_layout4 img k m n h b i j hb hi hj th).2, (linear_rgb_to_rgb_layout4 img k m n h b i j hb hi hj).2,
+   (linear_rgb_to_xyz_layout4 img k m n h b i j hb hi hj).2, (xyz_to_linear_rgb_layout4 img k m n h b i j hb hi hj).2,
+   (rgb_to_hsv_layout4 img k m n h b i j hb hi hj eps).2, (hsv_to_rgb_layout4 img k m n h b i j hb hi hj).2,
+   (second_to_third_stage_layout4 img k m n h b i j hb hi hj).2⟩
+
+/-- … and return a tensor of the shape of the input -/
+theorem C15_gen_layout_batch_shape (img : Tensor ℝ) (k m n : Nat) (h : img.shape = [k, 3, m, n]) (eps th : ℝ) :
+    (GenT.rgb_2_ycrcb img).shape = [k, 3, m, n] ∧ (GenT.ycrcb_2_rgb img).shape = [k, 3, m, n] ∧
+    (GenT.rgb_to_linear_rgb img th).shape = [k, 3, m, n] ∧
+    (GenT.linear_rgb_to_rgb img GenT.linear_rgb_to_rgb_threshold).shape = [k, 3, m, n] ∧
+    (GenT.linear_rgb_to_xyz img).shape = [k, 3, m, n] ∧ (GenT.xyz_to_linear_rgb img).shape = [k, 3, m, n] ∧
+    (GenT.rgb_to_hsv img eps).shape = [k, 3, m, n] ∧ (GenT.hsv_to_rgb img).shape = [k, 3, m, n] ∧
+    (GenT.second_to_third_stage img).shape = [k, 3, m, n] := by
+  refine ⟨?_, ?_, ?_, ?_, ?_, ?_, ?_, ?_, ?_⟩
+  · tensor_simp [GenT.rgb_2_ycrcb, h]
+  · tensor_simp [GenT.ycrcb_2_rgb, h]
+  · tensor_simp [GenT.rgb_to_linear_rgb, h]
+  · tensor_simp [GenT.linear_rgb_to_rgb, h]
+  · tensor_simp [GenT.linear_rgb_to_xyz, h]
+  · tensor_simp [GenT.xyz_to_linear_rgb, h]
+  · tensor_simp [GenT.rgb_to_hsv, h]
+  · tensor_simp [GenT.hsv_to_rgb, h]
+  · tensor_simp [GenT.second_to_third_stage, h]
+
+/-- a single `[3 x m x n]` image is unsqueezed: the result is the batch of one `[1 x 3 x m x n]` with the same pixels -/
+theorem C15_gen_layout_single (img : Tensor ℝ) (m n : Nat) (h : img.shape = [3, m, n]) (i j : Nat)
+    (hi : i < m) (hj : j < n) (eps th : ℝ) :
+    ((GenT.rgb_2_ycrcb img).shape = [1, 3, m, n] ∧ pixel4 (GenT.rgb_2_ycrcb img) 0 i j = rgb2ycrcb (pixel3 img i j)) ∧
+    ((GenT.ycrcb_2_rgb img).shape = [1, 3, m, n] ∧ pixel4 (GenT.ycrcb_2_rgb img) 0 i j = ycrcb2rgb (pixel3 img i j)) ∧
+    ((GenT.rgb_to_linear_rgb img th).shape = [1, 3, m, n] ∧
+      pixel4 (GenT.rgb_to_linear_rgb img th) 0 i j = Vec3.mapR srgbToLinear (pixel3 img i j)) ∧
+    ((GenT.linear_rgb_to_rgb img GenT.linear_rgb_to_rgb_threshold).shape = [1, 3, m, n] ∧
+      pixel4 (GenT.linear_rgb_to_rgb img GenT.linear_rgb_to_rgb_threshold) 0 i j = Vec3.mapR linearToSrgb (pixel3 img i j)) ∧
+    ((GenT.linear_rgb_to_xyz img).shape = [1, 3, m, n] ∧ pixel4 (GenT.linear_rgb_to_xyz img) 0 i j = linearRgbToXyz (pixel3 img i j)) ∧
+    ((GenT.xyz_to_linear_rgb img).shape = [1, 3, m, n] ∧ pixel4 (GenT.xyz_to_linear_rgb img) 0 i j = xyzToLinearRgb (pixel3 img i j)) ∧
+    ((GenT.rgb_to_hsv img eps).shape = [1, 3, m, n] ∧ pixel4 (GenT.rgb_to_hsv img eps) 0 i j = rgbToHsv eps (pixel3 img i j)) ∧
+    ((GenT.hsv_to_rgb img).shape = [1, 3, m, n] ∧ pixel4 (GenT.hsv_to_rgb img) 0 i j = hsvToRgb (pixel3 img i j)) :=
+  ⟨rgb_2_ycrcb_layout3 img m n h i j hi hj, ycrcb_2_rgb_layout3 img m n h i j hi hj,
+   rgb_to_linear_rgb_layout3 img m n h i j hi hj th, linear_rgb_to_rgb_layout3 img m n h i j hi hj,
+   linear_rgb_to_xyz_layout3 img m n h i j hi hj, xyz_to_linear_rgb_layout3 img m n h i j hi hj,
+   rgb_to_hsv_layout3 img m n h i j hi hj eps, hsv_to_rgb_layout3 img m n h i j hi hj⟩
+
+/-- the Lab pair: a channel-first `[3 x m x n]` image (not exactly 3 pixels wide, see below) and a channel-last `[m x n x 3]`
+    image both give the channel-first `[3 x m x n]` result, pixel `(i, j)` computed from input pixel `(i, j)` -/
+theorem C15_gen_layout_lab (img : Tensor ℝ) (m n : Nat) (i j : Nat) (hi : i < m) (hj : j < n) :
+    (img.shape = [3, m, n] → n ≠ 3 →
+      ((GenT.srgb_to_lab img).shape = [3, m, n] ∧ pixel3 (GenT.srgb_to_lab img) i j = srgbToLab (pixel3 img i j)) ∧
+      ((GenT.lab_to_srgb img).shape = [3, m, n] ∧ pixel3 (GenT.lab_to_srgb img) i j = labToSrgb (pixel3 img i j))) ∧
+    (img.shape = [m, n, 3] →
+      ((GenT.srgb_to_lab img).shape = [3, m, n] ∧ pixel3 (GenT.srgb_to_lab img) i j = srgbToLab (pixelLast img i j)) ∧
+      ((GenT.lab_to_srgb img).shape = [3, m, n] ∧ pixel3 (GenT.lab_to_srgb img) i j = labToSrgb (pixelLast img i j))) :=
+  ⟨fun h hn => ⟨srgb_to_lab_layout_first img m n h hn i j hi hj, lab_to_srgb_layout_first img m n h hn i j hi hj⟩,
+   fun h => ⟨srgb_to_lab_layout_last img m n h i j hi hj, lab_to_srgb_layout_last img m n h i j hi hj⟩⟩
+
+/-- OBSERVATION (layout ambiguity of the source, `if image.shape[-1] == 3`): a channel-first image that is exactly three pixels
+    wide, `[3 x m x 3]`, is taken for a channel-last `[3 x m x 3]` image of 3 rows and `m` columns: the result has shape
+    `[3 x 3 x m]` and its pixel `(i, j)` is computed from the input elements `[i, j, 0], [i, j, 1], [i, j, 2]` -/
+theorem C15_gen_lab_width_three_read_as_channel_last (img : Tensor ℝ) (m : Nat) (h : img.shape = [3, m, 3]) (i j : Nat)
+    (hi : i < 3) (hj : j < m) :
+    (GenT.srgb_to_lab img).shape = [3, 3, m] ∧ pixel3 (GenT.srgb_to_lab img) i j = srgbToLab (pixelLast img i j) :=
+  srgb_to_lab_layout_last img 3 m h i j hi hj
+
+/-! ### HSV over the regenerated functions -/
+
+/-- image-level round trip `hsv_to_rgb(rgb_to_hsv(image, eps))`, every sextant, ties and greys, every batch image -/
+theorem C15_gen_hsv_roundtrip (img : Tensor ℝ) (k m n : Nat) (h : img.shape = [k, 3, m, n]) (b i j : Nat)
+    (hb : b < k) (hi : i < m) (hj : j < n) (eps : ℝ) :
+    pixel4 (GenT.hsv_to_rgb (GenT.rgb_to_hsv img eps)) b i j =
+      ⟨max3 (pixel4 img b i j) - (max3 (pixel4 img b i j) - (pixel4 img b i j).x) * (max3 (pixel4 img b i j) / (max3 (pixel4 img b i j) + eps)),
+       max3 (pixel4 img b i j) - (max3 (pixel4 img b i j) - (pixel4 img b i j).y) * (max3 (pixel4 img b i j) / (max3 (pixel4 img b i j) + eps)),
+       max3 (pixel4 img b i j) - (max3 (pixel4 img b i j) - (pixel4 img b i j).z) * (max3 (pixel4 img b i j) / (max3 (pixel4 img b i j) + eps))⟩ := by
+  obtain ⟨hs, hp⟩ := rgb_to_hsv_layout4 img k m n h b i j hb hi hj eps
+  rw [(hsv_to_rgb_layout4 _ k m n hs b i j hb hi hj).2, hp]
+  exact C15_hsv_roundtrip eps _
+
+/-- with the default `eps` of the source (`1e-8`) every channel of a non-negative pixel comes back within `1e-8` -/
+theorem C15_gen_hsv_roundtrip_default_eps (img : Tensor ℝ) (k m n : Nat) (h : img.shape = [k, 3, m, n]) (b i j : Nat)
+    (hb : b < k) (hi : i < m) (hj : j < n)
+    (hx : 0 ≤ (pixel4 img b i j).x) (hy : 0 ≤ (pixel4 img b i j).y) (hz : 0 ≤ (pixel4 img b i j).z) :
+    |(pixel4 (GenT.hsv_to_rgb (GenT.rgb_to_hsv img GenT.rgb_to_hsv_eps)) b i j).x - (pixel4 img b i j).x| ≤ 1 / 100000000 ∧
+    |(pixel4 (GenT.hsv_to_rgb (GenT.rgb_to_hsv img GenT.rgb_to_hsv_eps)) b i j).y - (pixel4 img b i j).y| ≤ 1 / 100000000 ∧
+    |(pixel4 (GenT.hsv_to_rgb (GenT.rgb_to_hsv img GenT.rgb_to_hsv_eps)) b i j).z - (pixel4 img b i j).z| ≤ 1 / 100000000 := by
+  obtain ⟨hs, hp⟩ := rgb_to_hsv_layout4 img k m n h b i j hb hi hj GenT.rgb_to_hsv_eps
+  rw [(hsv_to_rgb_layout4 _ k m n hs b i j hb hi hj).2, hp, rgb_to_hsv_eps_value]
+  exact C15_hsv_roundtrip_error _ (by norm_num) _ hx hy hz
+
+/-- exact round trip without the regularisation -/
+theorem C15_gen_hsv_roundtrip_exact (img : Tensor ℝ) (k m n : Nat) (h : img.shape = [k, 3, m, n]) (b i j : Nat)
+    (hb : b < k) (hi : i < m) (hj : j < n) (hmax : max3 (pixel4 img b i j) ≠ 0) :
+    pixel4 (GenT.hsv_to_rgb (GenT.rgb_to_hsv img 0)) b i j = pixel4 img b i j := by
+  obtain ⟨hs, hp⟩ := rgb_to_hsv_layout4 img k m n h b i j hb hi hj 0
+  rw [(hsv_to_rgb_layout4 _ k m n hs b i j hb hi hj).2, hp]
+  exact C15_hsv_roundtrip_exact _ hmax
+
+/-- hue in `[0, 2π)` at every pixel; greys have hue 0 and saturation 0, value = the grey level -/
+theorem C15_gen_hsv_hue_range_and_greys (img : Tensor ℝ) (k m n : Nat) (h : img.shape = [k, 3, m, n]) (b i j : Nat)
+    (hb : b < k) (hi : i < m) (hj : j < n) (eps : ℝ) :
+    (0 ≤ (pixel4 (GenT.rgb_to_hsv img eps) b i j).x ∧ (pixel4 (GenT.rgb_to_hsv img eps) b i j).x < 2 * Real.pi) ∧
+    (∀ g : ℝ, pixel4 img b i j = ⟨g, g, g⟩ → pixel4 (GenT.rgb_to_hsv img eps) b i j = ⟨0, 0, g⟩) := by
+  rw [(rgb_to_hsv_layout4 img k m n h b i j hb hi hj eps).2]
+  exact ⟨C15_hsv_hue_range eps _, fun g hg => by rw [hg]; exact C15_hsv_grey eps g⟩
+
+/-! ### image-level round trips of the matrix conversions (batch index and pixel position are preserved by both directions) -/
+
+theorem C15_gen_ycrcb_xyz_roundtrip_image (img : Tensor ℝ) (k m n : Nat) (h : img.shape = [k, 3, m, n]) (b i j : Nat)
+    (hb : b < k) (hi : i < m) (hj : j < n)
+    (hx : 0 ≤ (pixel4 img b i j).x ∧ (pixel4 img b i j).x ≤ 1) (hy : 0 ≤ (pixel4 img b i j).y ∧ (pixel4 img b i j).y ≤ 1)
+    (hz : 0 ≤ (pixel4 img b i j).z ∧ (pixel4 img b i j).z ≤ 1) :
+    (|(pixel4 (GenT.ycrcb_2_rgb (GenT.rgb_2_ycrcb img)) b i j).x - (pixel4 img b i j).x| ≤ 3 / 10000 ∧
+     |(pixel4 (GenT.ycrcb_2_rgb (GenT.rgb_2_ycrcb img)) b i j).y - (pixel4 img b i j).y| ≤ 3 / 10000 ∧
+     |(pixel4 (GenT.ycrcb_2_rgb (GenT.rgb_2_ycrcb img)) b i j).z - (pixel4 img b i j).z| ≤ 3 / 10000) ∧
+    (|(pixel4 (GenT.xyz_to_linear_rgb (GenT.linear_rgb_to_xyz img)) b i j).x - (pixel4 img b i j).x| ≤ 2 / 1000000 ∧
+     |(pixel4 (GenT.xyz_to_linear_rgb (GenT.linear_rgb_to_xyz img)) b i j).y - (pixel4 img b i j).y| ≤ 2 / 1000000 ∧
+     |(pixel4 (GenT.xyz_to_linear_rgb (GenT.linear_rgb_to_xyz img)) b i j).z - (pixel4 img b i j).z| ≤ 2 / 1000000) := by
+  obtain ⟨hs1, hp1⟩ := rgb_2_ycrcb_layout4 img k m n h b i j hb hi hj
+  obtain ⟨hs2, hp2⟩ := linear_rgb_to_xyz_layout4 img k m n h b i j hb hi hj
+  rw [(ycrcb_2_rgb_layout4 _ k m n hs1 b i j hb hi hj).2, hp1, (xyz_to_linear_rgb_layout4 _ k m n hs2 b i j hb hi hj).2, hp2]
+  exact ⟨C15_ycrcb_roundtrip_sharp _ hx hy hz, C15_xyz_roundtrip _ hx hy hz⟩
+
+/-- a white pixel anywhere in an image of either layout has `L* = 100`, `|a*|, |b*| ≤ 10⁻⁴` -/
+theorem C15_gen_lab_white_image (img : Tensor ℝ) (m n : Nat) (i j : Nat) (hi : i < m) (hj : j < n) :
+    (img.shape = [3, m, n] → n ≠ 3 → pixel3 img i j = ⟨1, 1, 1⟩ →
+      (pixel3 (GenT.srgb_to_lab img) i j).x = 100 ∧ |(pixel3 (GenT.srgb_to_lab img) i j).y| ≤ 1 / 10000 ∧
+        |(pixel3 (GenT.srgb_to_lab img) i j).z| ≤ 1 / 10000) ∧
+    (img.shape = [m, n, 3] → pixelLast img i j = ⟨1, 1, 1⟩ →
+      (pixel3 (GenT.srgb_to_lab img) i j).x = 100 ∧ |(pixel3 (GenT.srgb_to_lab img) i j).y| ≤ 1 / 10000 ∧
+        |(pixel3 (GenT.srgb_to_lab img) i j).z| ≤ 1 / 10000) := by
+  constructor
+  · intro h hn hw
+    rw [(srgb_to_lab_layout_first img m n h hn i j hi hj).2, hw]; exact C15_lab_white
+  · intro h hw
+    rw [(srgb_to_lab_layout_last img m n h i j hi hj).2, hw]; exact C15_lab_white
+
+/-! ### primaries ↔ LMS through the regenerated matrix pipeline -/
+
+/-- `lms_to_primaries(primaries_to_lms(image))` returns every pixel of every batch image when `torch.pinverse` returns a right
+    inverse of the `[3 x 3]` LMS matrix (`pinv` is an uninterpreted function; linearly independent primaries) -/
+theorem C15_gen_lms_roundtrip (pinv : Tensor ℝ → Tensor ℝ) (L prim : Tensor ℝ) (B H W : Nat) (hL : L.shape = [3, 3])
+    (hP : (pinv L).shape = [3, 3]) (hinv : matOf L * matOf (pinv L) = Mat3.one) (h : prim.shape = [B, 3, H, W])
+    (b i j : Nat) (hb : b < B) (hi : i < H) (hj : j < W) :
+    (GenT.lms_to_primaries pinv L (GenT.primaries_to_lms L prim)).shape = [B, 3, H, W] ∧
+    pixel4 (GenT.lms_to_primaries pinv L (GenT.primaries_to_lms L prim)) b i j = pixel4 prim b i j :=
+  lms_roundtrip_gen pinv L prim B H W hL hP hinv h b i j hb hi hj
+
+/-- what the two directions compute per pixel: the transposed LMS matrix, resp. the transposed `pinverse` -/
+theorem C15_gen_lms_matrices (pinv : Tensor ℝ → Tensor ℝ) (L t : Tensor ℝ) (B H W : Nat) (hL : L.shape = [3, 3])
+    (hP : (pinv L).shape = [3, 3]) (h : t.shape = [B, 3, H, W]) (b i j : Nat) (hb : b < B) (hi : i < H) (hj : j < W) :
+    pixel4 (GenT.primaries_to_lms L t) b i j = (matOf L).transpose.mulVec (pixel4 t b i j) ∧
+    pixel4 (GenT.lms_to_primaries pinv L t) b i j = (matOf (pinv L)).transpose.mulVec (pixel4 t b i j) :=
+  ⟨(primaries_to_lms_layout L t B H W hL h b i j hb hi hj).2, (lms_to_primaries_layout pinv L t B H W hP h b i j hb hi hj).2⟩
+
+/-- non-vacuity: an LMS matrix with a right inverse that is not the identity -/
+example : ∃ (pinv : Tensor ℝ → Tensor ℝ) (L : Tensor ℝ), L.shape = [3, 3] ∧ (pinv L).shape = [3, 3] ∧
+    matOf L * matOf (pinv L) = Mat3.one ∧ matOf L ≠ Mat3.one := by
+  refine ⟨fun _ => Tensor.ofFlat [3, 3] [1 / 2, 0, 0, 0, 1, 0, 0, 0, 1], Tensor.ofFlat [3, 3] [2, 0, 0, 0, 1, 0, 0, 0, 1], rfl, rfl, ?_, ?_⟩
+  · apply Mat3.ext' <;> simp [matOf, Tensor.ofFlat, Tensor.ravel, Tensor.prod, Mat3.mul_def, Mat3.mul, Mat3.one]
+  · intro h
+    have := congrArg Mat3.a00 h
+    simp [matOf, Tensor.ofFlat, Tensor.ravel, Tensor.prod, Mat3.one] at this
+
+/-! ## sRGB → Lab → sRGB -/
+
+/-- sRGB → L*a*b* → sRGB returns every in-gamut colour within `10⁻⁶` per channel (exact real arithmetic).  The cube root / cube
+    pair with their linear toes and the `L* a* b*` affine maps cancel exactly; the two 3x3 matrices and the two white points of the
+    source are rounded inverses of each other (`≤ 5.5·10⁻⁸` on linear light); `linear_rgb_to_rgb` amplifies that by at most 12.92
+    plus its `3·10⁻⁸` knee jump; the sRGB transfer pair is exact except on the sliver between its two knees (`≤ 1.6·10⁻⁷`). -/
+theorem C15_lab_roundtrip (c : Vec3 ℝ) (hx : 0 ≤ c.x ∧ c.x ≤ 1) (hy : 0 ≤ c.y ∧ c.y ≤ 1) (hz : 0 ≤ c.z ∧ c.z ≤ 1) :
+    |(labToSrgb (srgbToLab c)).x - c.x| ≤ 1 / 1000000 ∧
+    |(labToSrgb (srgbToLab c)).y - c.y| ≤ 1 / 1000000 ∧
+    |(labToSrgb (srgbToLab c)).z - c.z| ≤ 1 / 1000000 := by
+  have h0 : srgbToLinear (0 : ℝ) = 0 := by rw [srgbToLinear_lower (by norm_num)]; norm_num
+  have h1 : srgbToLinear (1 : ℝ) = 1 := by
+    rw [srgbToLinear_upper (by norm_num)]
+    have : ((1 : ℝ) + 0.055) / 1.055 = 1 := by norm_num
+    rw [this, Real.log_one, mul_zero, Real.exp_zero]
+  have hm := C15_srgb_to_linear_strictMono.monotone
+  have unit : ∀ t : ℝ, 0 ≤ t ∧ t ≤ 1 → 0 ≤ srgbToLinear t ∧ srgbToLinear t ≤ 1 := fun t ht =>
+    ⟨h0 ▸ hm ht.1, h1 ▸ hm ht.2⟩
+  rw [lab_roundtrip_structure]
+  obtain ⟨e1, e2, e3⟩ := lab_linear_error ⟨srgbToLinear c.x, srgbToLinear c.y, srgbToLinear c.z⟩ (unit _ hx) (unit _ hy) (unit _ hz)
+  simp only [] at e1 e2 e3 ⊢
+  have fin : ∀ r l t : ℝ, |r - l| ≤ 55 / 1000000000 → l = srgbToLinear t → |linearToSrgb r - t| ≤ 1 / 1000000 := by
+    intro r l t hr hl
+    have a := linearToSrgb_lipschitz l r
+    have b := srgb_roundtrip_error t
+    rw [← hl] at b
+    have tri := abs_sub_le (linearToSrgb r) (linearToSrgb l) t
+    have : 12.92 * |r - l| ≤ 12.92 * (55 / 1000000000) := mul_le_mul_of_nonneg_left hr (by norm_num)
+    norm_num at this a b ⊢
+    linarith
+  exact ⟨fin _ _ _ e1 rfl, fin _ _ _ e2 rfl, fin _ _ _ e3 rfl⟩
+
+/-- … and so do whole images through the regenerated tensor-level functions, in both layouts (the result of `srgb_to_lab` is
+    channel-first, so an image exactly 3 pixels wide would be re-read as channel-last by `lab_to_srgb`: `n ≠ 3`) -/
+theorem C15_gen_lab_roundtrip_image (img : Tensor ℝ) (m n : Nat) (hn : n ≠ 3) (i j : Nat) (hi : i < m) (hj : j < n)
+    (p : Vec3 ℝ) (hp : (img.shape = [3, m, n] ∧ p = pixel3 img i j) ∨ (img.shape = [m, n, 3] ∧ p = pixelLast img i j))
+    (hx : 0 ≤ p.x ∧ p.x ≤ 1) (hy : 0 ≤ p.y ∧ p.y ≤ 1) (hz : 0 ≤ p.z ∧ p.z ≤ 1) :
+    |(pixel3 (GenT.lab_to_srgb (GenT.srgb_to_lab img)) i j).x - p.x| ≤ 1 / 1000000 ∧
+    |(pixel3 (GenT.lab_to_srgb (GenT.srgb_to_lab img)) i j).y - p.y| ≤ 1 / 1000000 ∧
+    |(pixel3 (GenT.lab_to_srgb (GenT.srgb_to_lab img)) i j).z - p.z| ≤ 1 / 1000000 := by
+  have key : (GenT.srgb_to_lab img).shape = [3, m, n] ∧ pixel3 (GenT.srgb_to_lab img) i j = srgbToLab p := by
+    rcases hp with ⟨h, rfl⟩ | ⟨h, rfl⟩
+    · exact srgb_to_lab_layout_first img m n h hn i j hi hj
+    · exact srgb_to_lab_layout_last img m n h i j hi hj
+  rw [(lab_to_srgb_layout_first _ m n key.1 hn i j hi hj).2, key.2]
+  exact C15_lab_roundtrip p hx hy hz
 
 end Odak
